@@ -63,6 +63,7 @@ struct Engine {
 
 Engine *make_stream_engine();
 Engine *make_zone_engine();
+Engine *make_zoneh_engine();
 Engine *make_hist_engine();
 Engine *make_files_engine();
 Engine *make_env_engine();
